@@ -60,6 +60,10 @@ var c04KindName = []string{"ok", "fail", "outside", "cancelish"}
 type c04Outcome struct {
 	kind  int
 	block bool // block until released by the scheduler (or the context ends)
+	// atDeadline (cancel-looking outcomes in schedules with a short per-sample timeout): the call
+	// keeps running until the per-sample deadline fires and then fails with an error wrapping
+	// context.Canceled (what a stream reset by a deadline looks like) — the DASer itself keeps running
+	atDeadline bool
 }
 
 type c04Call struct {
@@ -191,6 +195,8 @@ type c04Params struct {
 	PBlock    int             `json:"p_block_pct"`
 	PCancel   int             `json:"p_cancelish_pct"`
 	PHdrFail  int             `json:"p_header_store_transient_fail_pct"`
+	// SampleTimeout: per-sample timeout handed to the DASer (0 = one hour, i.e. never fires)
+	SampleTimeout time.Duration `json:"sample_timeout_ns"`
 	BgEvery   time.Duration   `json:"bg_store_interval_ns"`
 	Backoff   []time.Duration `json:"backoff_ns"`
 	Events    int             `json:"events"`
@@ -243,6 +249,9 @@ func (s *c04Sched) outcomeLocked(h uint64, att int) c04Outcome {
 		oc.kind = c04Cancelish
 	}
 	oc.block = r.Intn(100) < s.p.PBlock
+	if s.p.SampleTimeout > 0 && oc.kind == c04Cancelish && r.Intn(100) < 70 {
+		oc.atDeadline, oc.block = true, false
+	}
 	return oc
 }
 
@@ -294,8 +303,20 @@ func (a *c04Sampler) SharesAvailable(ctx context.Context, h *header.ExtendedHead
 		select {
 		case <-c.release:
 		case <-ctx.Done():
+			if errors.Is(ctx.Err(), context.DeadlineExceeded) {
+				// the per-sample timeout fired while the DASer keeps running: a failed sample
+				s.eng.run.Count("call/sample-timeout-fired/blocked-call", 1)
+				return a.finish(c, "fail", fmt.Errorf("c04: height %d attempt %d: %w", height, att, ctx.Err()))
+			}
 			return a.finish(c, "ctx", ctx.Err())
 		}
+	}
+	if c.oc.atDeadline {
+		<-ctx.Done()
+		if !errors.Is(ctx.Err(), context.DeadlineExceeded) {
+			return a.finish(c, "ctx", ctx.Err())
+		}
+		s.eng.run.Count("call/sample-timeout-fired/cancel-looking-error", 1)
 	}
 	switch c.oc.kind {
 	case c04Fail:
